@@ -8,7 +8,7 @@ from common import Driver, DriverFailure
 
 LEVEL = "proof"
 MANIFEST = dict(
-    text="Lean 4 invariants over a transition system of GeckoAsyncUdpProtocol.get for any number of concurrent callers, proved for every reachable state by "
+    text="Lean 4 invariants over a transition system of GeckoAsyncUdpProtocol.get for any number of concurrent callers, proved for every reachable state by  Session 4: an arrival-order monitor (no later caller is transmitted while an earlier caller has not completed)."
          "induction over action sequences (all arrival times, wake-up orders, reply loss/delay patterns, stalls): at most one caller inside an exchange and it is the lock "
          "holder (at_most_one_in_flight), datagrams per call <= retry count with the waiting handler built at the latest transmission (sends_bounded), callers served in "
          "call order (fifo: acquired ++ parked = called), a reply is returned only by the caller's own poll finding it (reply_was_delivered); and, without event-loop stalls, "
